@@ -654,6 +654,10 @@ def run(ctx):
     check_integrate_subset(ctx)
     check_drivers(ctx)
     check_rebin_cache(ctx)
+    # F_nu(nu_i) is the spectrum as stored: the drivers read it with SED.read / the cube reader in mJy (round trip decided by interpretation, roundtrip.py)
+    from .. import roundtrip
+    roundtrip.check_sed(ctx, 'AGREE-4', 'PERM-4')
+    roundtrip.check_cube(ctx, 'AGREE-5', 'PERM-5')
     ctx.exhaustive = True
 
 
